@@ -158,8 +158,20 @@ def run_regex_once(ctx, cls_name, pattern, repl, data: bytes, fc_spec, res_spec,
         cs = pipe.apply(ectx, fc, results)
     except Exception as e:  # noqa
         return None, type(e).__name__
-    return {"ret": obs_changeset(cs), "file": f.read_bytes(), "unfixed": obs_unfixed(fc),
+    return {"ret": obs_changeset(cs), "file": f.read_bytes(), "unfixed": obs_unfixed(fc), "failed": bool(fc.failures),
             "unfixed_meta": sorted({(u.path, u.reason) for u in fc.unfixed_findings})}, None
+
+
+def as_code(b: bytes) -> str:
+    """file content as a Coq str: the decoded text, or (undecodable bytes) one code point per byte"""
+    try:
+        return b.decode("utf-8")
+    except UnicodeDecodeError:
+        return b.decode("latin-1")
+
+
+READ_REASON = "Failed to read file"
+TRANSFORM_REASON = "Failed to transform file"
 
 
 def regex_case(ctx, cls_name, pname, pattern, repl, text, fc_spec, res_spec, idx):
@@ -167,7 +179,11 @@ def regex_case(ctx, cls_name, pname, pattern, repl, text, fc_spec, res_spec, idx
     from codemodder.codemods import regex_transformer as rt
     from codemodder.diff import create_diff
     from codemodder.file_context import FileContext
-    data = text.encode("utf-8")
+    # `text` is a str, or bytes that do not decode as UTF-8 (fault stream)
+    decodes = isinstance(text, str)
+    data = text.encode("utf-8") if decodes else text
+    if not decodes:
+        text = ""
     lines = text.splitlines(keepends=True)
     if "".join(lines) != text:
         ctx.mismatch("str.splitlines contract", "join(splitlines(keepends)) != text", {"text": text})
@@ -187,7 +203,8 @@ def regex_case(ctx, cls_name, pname, pattern, repl, text, fc_spec, res_spec, idx
         diffs.append((list(upd), create_diff(lines, list(upd))))
     except Exception:  # noqa  (results=None on the SAST class)
         pass
-    meta = {"pipeline": cls_name, "pattern": pname, "text": text, "fc_results": fc_spec, "results": res_spec,
+    meta = {"pipeline": cls_name, "pattern": pname, "text": text if decodes else None, "data": None if decodes else list(data),
+            "fc_results": fc_spec, "results": res_spec,
             "real": _jsonable(real), "dry": _jsonable(dry), "raised": [exc_r, exc_d]}
 
     def c_results(spec):
@@ -202,15 +219,12 @@ def regex_case(ctx, cls_name, pname, pattern, repl, text, fc_spec, res_spec, idx
         cret = copt(None if ret is None else cpair(cstr(ret["diff"]), clist(
             ["{| c_line := %s; c_findings := %s |}" % (cN(n), clist([cN(x) for x in fs], "N")) for n, fs in ret["changes"]], "change")),
             "str * list change")
-        try:
-            ftext = o["file"].decode("utf-8")
-        except UnicodeDecodeError:
-            ftext = "�<undecodable>"
-        return "(Some %s : obs)" % cpair(cret, cstr(ftext), clist([cpair(cN(i), cN(n)) for i, n in o["unfixed"]], "N * N"))
+        return "(Some %s : obs)" % cpair(cret, cstr(as_code(o["file"])), clist([cpair(cN(i), cN(n or 0)) for i, n in o["unfixed"]], "N * N"),
+                                         cbool(o["failed"]))
 
-    term = ("{| rc_sast := %s; rc_lines := %s; rc_graph := %s; rc_fc := %s; rc_results := %s; rc_diffs := %s; "
+    term = ("{| rc_sast := %s; rc_raw := %s; rc_decodes := %s; rc_lines := %s; rc_graph := %s; rc_fc := %s; rc_results := %s; rc_diffs := %s; "
             "rc_real := %s; rc_dry := %s |}") % (
-        cbool(sast), clist([cstr(l) for l in lines], "str"),
+        cbool(sast), cstr(as_code(data)), cbool(decodes), clist([cstr(l) for l in lines], "str"),
         clist([cpair(cstr(a), cstr(b)) for a, b in graph], "str * str"),
         c_results(fc_spec or []), copt(None if res_spec is None else c_results(res_spec), "list result"),
         clist([cpair(clist([cstr(l) for l in u], "str"), cstr(d)) for u, d in diffs], "list str * str"),
@@ -220,8 +234,9 @@ def regex_case(ctx, cls_name, pname, pattern, repl, text, fc_spec, res_spec, idx
         if o and o["ret"] is not None:
             if o["ret"]["path"] != f"sub_{'real' if o is real else 'dry'}/t.txt" or o["ret"]["descriptions"] != [DESCRIPTION]:
                 ctx.violation("kf_regex_change_metadata", f"ChangeSet path/description wrong: {o['ret']['path']} {o['ret']['descriptions']}", meta)
-        if o and o["unfixed_meta"] and any(r != REASON for _, r in o["unfixed_meta"]):
-            ctx.violation("kf_regex_change_metadata", f"unfixed finding reason/path wrong: {o['unfixed_meta']}", meta)
+        want = READ_REASON if not decodes else TRANSFORM_REASON if (sast and res_spec is None) else REASON
+        if o and o["unfixed_meta"] and any(r != want for _, r in o["unfixed_meta"]):
+            ctx.violation("kf_regex_change_metadata", f"unfixed finding reason/path wrong: {o['unfixed_meta']} (expected reason {want!r})", meta)
     edited = sum(1 for a, b in zip(lines, diffs[0][0]) if a != b) if diffs else 0
     return term, meta, edited, len(lines)
 
@@ -241,8 +256,13 @@ def _spec(j):
 def load_regex_corpus():
     """corpus/C19/regex.json: hand-picked regression inputs and the witness of the refuted (pinned) index form"""
     f = core.VERIF / "corpus" / "C19" / "regex.json"
-    return [(e["name"], e["pname"], e["pattern"], e["repl"], e["text"], _spec(e["fc_results"]), _spec(e["results"]))
+    return [(e["name"], e["pname"], e["pattern"], e["repl"], bytes(e["bytes"]) if "bytes" in e else e["text"],
+             _spec(e["fc_results"]), _spec(e["results"]))
             for e in json.loads(f.read_text())] if f.exists() else []
+
+
+# fault stream: bytes that do not decode as UTF-8 (DESIGN §6 #21; isolated since fix 49f7472)
+UNDECODABLE = [b"foo\xff\n", b"\xfe\xff\x00f\x00o", b"ok\nfoo \xc3\x28\n", b"\x80", b"foo\n\xed\xa0\x80\n"]
 
 
 def run_regex(ctx):
@@ -269,6 +289,12 @@ def run_regex(ctx):
                 rs = fcs if r < 0.8 else None
             fc_spec = fcs if rng.random() < 0.95 else None
             plan.append((f"gen:{mode}", cls, pname, pat, repl, text, fc_spec, rs))
+    for i in range(6 if ctx.quick() else 40):
+        data = rng.choice(UNDECODABLE) + (rng.choice(["", "foo\n", "é"]).encode() if i >= len(UNDECODABLE) else b"")
+        data = UNDECODABLE[i] if i < len(UNDECODABLE) else data
+        fcs = gen_findings(rng, 3)
+        for cls in ("RegexTransformerPipeline", "SastRegexTransformerPipeline"):
+            plan.append(("fault:undecodable", cls, "literal", r"foo", "bar", data, fcs, fcs if rng.random() < 0.8 else None))
     # exhaustive small scope (thorough): every text of <= 3 lines over {"foo\n","zz\n","foo"} x every single-location finding
     if not ctx.quick():
         atoms = ["foo\n", "zz\n", "foo\r\n"]
@@ -296,40 +322,35 @@ def run_regex(ctx):
             ctx.count("regex_raised:" + meta["raised"][0])
         overlap = bool(meta["real"] and meta["real"]["ret"] and any(fs for _, fs in meta["real"]["ret"]["changes"]))
         nontrivial = (0 < edited < nlines) or overlap
-        ctx.case({"class": cls, "pattern": pname, "text": text, "fc_results": fcs, "results": rs,
+        ctx.case({"class": cls, "pattern": pname, "text": text if isinstance(text, str) else repr(text), "fc_results": fcs, "results": rs,
                   "returned": meta["real"] and meta["real"]["ret"]},
                  nontrivial_key=(cls, pname, text, repr(fcs), repr(rs)) if nontrivial else None,
                  sample=nontrivial and overlap)
 
-    checks = ["regex_model_ok", "regex_spec_file_ok", "regex_spec_changes_ok", "regex_spec_findings_ok", "regex_spec_unfixed_ok"]
+    checks = ["regex_model_ok", "regex_spec_file_ok", "regex_spec_changes_ok", "regex_spec_findings_ok", "regex_spec_unfixed_ok",
+              "regex_spec_isolation_ok"]
     bad = core.eval_bad_indices(ctx, "c19_regex", IMPORTS, "regex_case", terms, checks, chunk=300)
     for i in bad["regex_model_ok"]:
         m = metas[i]
-        ctx.mismatch(f"{m['pipeline']}.apply vs Model.RegexPipe", f"apply() differs from the model: pattern={m['pattern']} text={m['text']!r} "
+        ctx.mismatch(f"{m['pipeline']}.apply vs Model.RegexPipe", f"apply() differs from the model: pattern={m['pattern']} text={(m['text'] if m['text'] is not None else bytes(m['data']))!r} "
                      f"fc_results={m['fc_results']} results={m['results']} observed={m['real']}", {"half": "regex", **m})
     what = {
         "regex_spec_file_ok": ("kf_regex_untargeted_changed", "file content is not 'targeted lines substituted, every other line identical, dry-run untouched'"),
         "regex_spec_changes_ok": ("kf_regex_changes_not_edits", "changes are not one per edited line (1-based, in order), or None/ChangeSet or diff wrong"),
         "regex_spec_findings_ok": ("kf_regex_findings_off_by_one", "a change does not carry exactly the findings whose range contains its line"),
         "regex_spec_unfixed_ok": ("kf_regex_unfixed_wrong", "unfixed findings are not those of targeted-but-unchanged lines"),
+        "regex_spec_isolation_ok": ("kf_regex_no_isolation", "a file that cannot be read (undecodable) or transformed (_apply raises) is not isolated: "
+                                    "the exception escapes apply(), or no failure is recorded / the file is touched / its findings are not reported "
+                                    "unfixed at line 0 (or a failure is recorded for a good file)"),
     }
     for chk, (cls, text) in what.items():
         for i in bad[chk]:
             m = metas[i]
-            ctx.violation(cls, f"{m['pipeline']}: {text}; pattern={m['pattern']} text={m['text']!r} fc_results={m['fc_results']} "
+            ctx.violation(cls, f"{m['pipeline']}: {text}; pattern={m['pattern']} text={(m['text'] if m['text'] is not None else bytes(m['data']))!r} fc_results={m['fc_results']} "
                           f"results={m['results']} observed(real)={m['real']} observed(dry)={m['dry']}", {"half": "regex", **m})
 
-    # fault stream: undecodable bytes (DESIGN §6 #21, belongs to C10): apply() has no failure handling
-    for data in (b"foo\xff\n", b"\xfe\xff\x00f\x00o", b"ok\nfoo \xc3\x28\n"):
-        o, exc = run_regex_once(ctx, "RegexTransformerPipeline", "foo", "bar", data, [], [], False, "fault")
-        ctx.count("regex_fault:" + (exc or "no-exception"))
-        ctx.case({"fault": repr(data), "raised": exc})
-        f = ctx.scratch / "proj" / "sub_fault" / "t.txt"
-        if f.read_bytes() != data:
-            ctx.violation("kf_regex_fault_wrote", f"undecodable input {data!r} was modified on disk", {"half": "regex-fault", "data": list(data)})
-    if ctx.dist.get("regex_fault:UnicodeDecodeError"):
-        ctx.notes.append("DESIGN §6 #21 reproduces: RegexTransformerPipeline.apply raises UnicodeDecodeError on undecodable bytes "
-                         "(no failure handling; file untouched). Reported under C10, not a C19 violation.")
+    if ctx.tables.get("regex_apply_isolation") == "NoTry":
+        ctx.notes.append("regex_transformer.py has the pinned apply(): an undecodable file / a raising _apply escapes (DESIGN §6 #21)")
 
 
 # ------------------------------------------------------------------------------------------------
@@ -347,18 +368,16 @@ def replay(ctx, body):
     if str(body.get("half", "")).startswith("xml"):
         from harness import c19_xml
         return c19_xml.replay(ctx, body)
-    if body.get("half") == "regex-fault":
-        o, exc = run_regex_once(ctx, "RegexTransformerPipeline", "foo", "bar", bytes(body["data"]), [], [], False, "fault")
-        print("raised:", exc, "observed:", o)
-        return 0
     pats = {p[0]: p for p in PATTERNS}
     pats.update({c[1]: (c[1], c[2], c[3]) for c in load_regex_corpus()})
     _, pat, repl = pats[body["pattern"]]
     fcs, rs = _spec(body["fc_results"]), _spec(body["results"])
     for dry in (False, True):
-        o, exc = run_regex_once(ctx, body["pipeline"], pat, repl, body["text"].encode(), fcs, rs, dry, "replay")
+        data = bytes(body["data"]) if body.get("data") is not None else body["text"].encode()
+        o, exc = run_regex_once(ctx, body["pipeline"], pat, repl, data, fcs, rs, dry, "replay")
         print(f"dry_run={dry}: raised={exc} observed now: {_jsonable(o)}")
     print("recorded (real):", body.get("real"))
     print("expected: one change per edited line, lineNumber 1-based, findings = those whose [start.line, end.line] contains it; "
-          "untargeted lines identical; dry-run writes nothing")
+          "untargeted lines identical; dry-run writes nothing; an unreadable file or a raising _apply is a recorded failure "
+          "(apply returns None, file untouched, findings unfixed at line 0), never an escaping exception")
     return 0
